@@ -7,6 +7,7 @@ import (
 	"fmt"
 	"os"
 	"path/filepath"
+	"runtime/debug"
 	"strconv"
 	"strings"
 
@@ -76,6 +77,8 @@ func work(args []string) int {
 		return 2
 	}
 	core.Root = *root
+	// recursion that has no bound should end a worker quickly, not after a gigabyte of stack
+	debug.SetMaxStack(256 << 20)
 	b, err := core.NewB(*prop, core.ParseTier(*tier), *seed, *batch, *nb, *jrn)
 	if err != nil {
 		fmt.Fprintln(os.Stderr, err)
